@@ -22,6 +22,23 @@ CHECKS = {
             "keyword). A non-empty result or any exception is a refutation.",
             "Absent keywords are drawn from the stored keywords' domain; oracle is the constant 'empty'.",
             "DESIGN.md §3 C02"),
+    "C03": ("exploration", "wire-boundary oracle: serialize/deserialize equality + byte-only server pipeline + key reload in a fresh scheme instance",
+            "For every generated case the key, index, tokens and results are serialized, deserialized under a "
+            "configuration object rebuilt from the JSON round-trip of the configuration, compared (==, and bytes of a "
+            "second serialize()), and the search is executed by a server-side scheme instance that only sees bytes, "
+            "with tokens from the original client and from a second client that reloaded the key from its bytes; "
+            "results are compared with the plaintext. The grid stresses widths that differ from the defaults the "
+            "fixed-offset parsers were written against (k != k', l != l' != k, lambda != k, 1- and 2-byte addresses).",
+            "One process plays client and server (no shared objects, only bytes + JSON); classes located by name.",
+            "DESIGN.md §3 C03"),
+    "C05": ("exploration", "group invariant: shape(EDB) equal within families of databases built to collide on the public size parameter + uniform entry lengths",
+            "Per configuration a family of valid databases is generated to collide on pi_S with maximally different "
+            "length profiles (1xN, Nx1, partitions, every N in (2^(t-1), 2^t], equal block counts with different fill); "
+            "a canonical shape (container kinds, entry counts, multisets of key/value byte lengths) is computed by a "
+            "generic walk of the unpickled EDB.serialize() and must be identical inside each pi_S group; every table "
+            "and flat array must use one key length and one value length.",
+            "pi_S computed by the harness model from the plaintext; shape abstraction as defined in props/c05.py.",
+            "DESIGN.md §3 C05"),
     "C07": ("exploration", "before/after snapshot monitors + history checker against single-search baselines on a private deserialized index",
             "Deep copies of database, configuration dict (including the module-level DEFAULT_CONFIG passed by "
             "reference) and key bytes are compared after construction and EDBSetup; EDB bytes before/after a seeded "
